@@ -133,6 +133,10 @@ def gen_cases(tier, seed):
     n = 150 if tier == "quick" else 5000
     for i in range(n):
         cases.append({"t": "seq", "seed": seed * 1_000_003 + i, "nh": rng.choice([2, 3, 4]), "width": rng.choice([8, 16, 32]), "start": rng.choice([0, 1, 7, 100])})
+    # the largest values of every sequence number width (the provider itself is never driven beyond the width)
+    for width in (8, 16, 32):
+        for nh in (1, 2):
+            cases.append({"t": "seq", "seed": seed * 1_000_003 + 900 + width + nh, "nh": nh, "width": width, "start": (1 << width) - 3, "max_tx": 3})
     return cases
 
 
@@ -202,6 +206,33 @@ def run_table(case):
         lens = [d["dlen"] for d in txs if d["kind"] == "FD"]
         if not lens or max(lens) != eff or any(x > eff for x in lens):
             viol.append({"clause": "segment-length-not-min-of-configured-and-derived", "observed": lens, "configured": seg, "derived": derived, "want": eff})
+        if (case["rm"] is None or case["rc"] is None) and not viol:
+            # the caller re-uses its PutRequest object (mode / closure left to the MIB) after the MIB defaults were changed: the second
+            # transaction must follow the new defaults
+            req = w.S.h.get_put_request()
+            flip_mode = "unack" if case["mm"] == "ack" else "ack"
+            w.rc_dst_at_src.default_transmission_mode = MODES[flip_mode]
+            w.rc_dst_at_src.closure_requested = not case["mc"]
+            want_mode2 = case["rm"] if case["rm"] is not None else flip_mode
+            want_closure2 = case["rc"] if case["rc"] is not None else (not case["mc"])
+            mark = len(w.log.events)
+            try:
+                ok2 = w.S.put(req)
+                trace2, _ = drive(w, put=False)
+                txs2 = [wire.describe(x["raw"]) for x in w.log.events[mark:] if x["kind"] == "tx" and x["side"] == "S"]
+                md2 = next((d for d in txs2 if d.get("kind") == "MD"), None)
+                if ok2 is not True or md2 is None:
+                    viol.append({"clause": "re-used-put-request-object-not-accepted", "returned": ok2})
+                else:
+                    got2 = ("unack" if md2["h"]["unack"] else "ack", md2["closure"])
+                    if got2 != (want_mode2, want_closure2):
+                        viol.append({"clause": "mode-closure-resolution-with-re-used-request-object", "got": got2, "want": (want_mode2, want_closure2),
+                                     "request": (case["rm"], case["rc"]), "mib_now": (flip_mode, not case["mc"])})
+                    if req.trans_mode is not MODES[case["rm"]] or req.closure_requested is not case["rc"]:
+                        viol.append({"clause": "put-request-object-modified-by-the-handler", "trans_mode": str(req.trans_mode), "closure_requested": req.closure_requested})
+                    obs["reused_request_objects_checked"] = 1
+            except Exception as e:  # noqa: BLE001
+                viol.append({"clause": "re-used-put-request-object-raised", "etype": type(e).__name__, "msg": str(e)[:120]})
         obs["table_cells"] = 1
         obs["mode_from_" + ("request" if case["rm"] else "mib")] = 1
         obs["closure_from_" + ("request" if case["rc"] is not None else "mib")] = 1
@@ -377,14 +408,17 @@ def run_seq(case):
         tids_seen: list[tuple] = []
         accepted = 0
         per_handler_tids = {i: [] for i in range(len(worlds))}
-        for _step in range(rng.randrange(20, 120)):
+        for _step in range(rng.randrange(20, 120) if not case.get("max_tx") else 400):
+            if case.get("max_tx") and len(prov.calls) >= case["max_tx"] and all(x.S.h.state.name == "IDLE" for x in worlds):
+                obs["top_of_sequence_number_range_reached"] = 1
+                break
             i = rng.randrange(len(worlds))
             w = worlds[i]
             S = w.S
             prov.who = f"h{i}"
             r = rng.random()
             try:
-                if r < 0.25:
+                if r < 0.25 and not (case.get("max_tx") and accepted >= case["max_tx"]):
                     kind = rng.choice(["same", "same", "missing_source", "unknown_dest", "metadata_only"])
                     idle = S.h.state.name == "IDLE"
                     try:
@@ -468,4 +502,4 @@ def exhaustive(tier):
 
 
 REQUIRED = {"table_cells": 432, "puts_on_busy_handler": 100, "traces_equal_to_reference": 100, "invalid_sequences": 20, "reuse_traces_equal_to_reference": 10,
-            "documented_errors_SourceFileDoesNotExist": 10, "documented_errors_NoRemoteEntityCfgFound": 10, "seq_runs": 50, "transactions_started": 200}
+            "documented_errors_SourceFileDoesNotExist": 10, "documented_errors_NoRemoteEntityCfgFound": 10, "seq_runs": 50, "transactions_started": 200, "reused_request_objects_checked": 100, "top_of_sequence_number_range_reached": 3}
